@@ -260,6 +260,57 @@ pub fn c08_schedules(ctx: &Ctx, out: &mut RunOut) -> Result<(), Violation> {
             _ => "image-fault-corrupted",
         });
     }
+    // exhaustive part: every relative completion order of the items whose closures touch the
+    // shared state (object-stream containers, streams whose Length lives in an object stream)
+    {
+        let img = &images[0].0;
+        ctx.set_sched(SchedPolicy::InOrder);
+        if let Ok(d) = guarded("load_mem", || sim::lopdf::Document::load_mem(img))? {
+            let keys: Vec<u32> = d.reference_table.entries.keys().cloned().collect();
+            let exp = &h.written.expect[last];
+            let mut obs: Vec<u32> = containers.clone();
+            for (id, o) in &exp.objects {
+                if let MObj::Stream(dd, _) = o {
+                    if let Some(MObj::Ref(n, _)) = dict_get(dd, b"Length") {
+                        if h.written.layout.compressed.contains_key(n) {
+                            obs.push(id.0);
+                        }
+                    }
+                }
+            }
+            obs.sort();
+            obs.dedup();
+            let pos: Vec<usize> = obs.iter().filter_map(|k| keys.iter().position(|x| x == k)).collect();
+            let limit = if thorough() { 5 } else { 4 };
+            if pos.len() == obs.len() && pos.len() >= 2 && pos.len() <= limit {
+                let reference = guarded("load_mem(seq)", || seq::load_outcome(img))?;
+                let mut perm: Vec<usize> = (0..pos.len()).collect();
+                let mut n_orders = 0u64;
+                loop {
+                    let mut order: Vec<usize> = (0..keys.len()).collect();
+                    for (j, &pj) in perm.iter().enumerate() {
+                        order[pos[j]] = pos[pj];
+                    }
+                    ctx.set_sched(SchedPolicy::Scripted(std::sync::Arc::new(order)));
+                    let o = guarded("load_mem", || sim::load_outcome(img))?;
+                    n_orders += 1;
+                    if o != reference {
+                        return Err(Violation::new(
+                            "differs-from-sequential",
+                            format!("valid image ({}): completion order {:?} of the observable items {:?} gives {} but the sequential build gives {}", describe(&h), perm, obs, show_outcome(&o), show_outcome(&reference)),
+                        ));
+                    }
+                    // next permutation (lexicographic)
+                    let Some(i) = (0..perm.len() - 1).rev().find(|&i| perm[i] < perm[i + 1]) else { break };
+                    let j = (i + 1..perm.len()).rev().find(|&j| perm[j] > perm[i]).unwrap();
+                    perm.swap(i, j);
+                    perm[i + 1..].reverse();
+                }
+                ctx.count("files-with-all-orders-enumerated");
+                ctx.count_n("orders-enumerated-exhaustively", n_orders);
+            }
+        }
+    }
     ctx.set_sched(SchedPolicy::Random);
     ctx.count_n("distinct-container-orders", distinct_orders.len() as u64);
     if containers.len() >= 2 {
